@@ -123,6 +123,10 @@ def gen(rng, tier):
         lo = rng.random() < 0.5
         for p in pos:
             for ax in range(3):
+                if rng.random() < 0.08:
+                    # negative by less than half an ulp of the box: the wrap rounds it to exactly `box`
+                    p[ax] = -box * 2.0 ** rng.choice([-27, -30, -56, -60])
+                    continue
                 if rng.random() < (0.4 if ax == coord else 0.15):
                     if lo and p[ax] >= 0.5 * box:
                         p[ax] = float(ft(p[ax] - box))
